@@ -197,3 +197,49 @@ def presentation_type_sweep(types: list[int]) -> list[list]:
         steps.append(["rx", f"9;3;0;0;{t};unknown node\n"])     # child presentation from an unknown node
         steps.append(["rx", f"2;255;0;0;{t};2.1\n"])           # node presentation of type t
     return steps
+
+
+def rich_history(rng: random.Random, version: str | None, length: int) -> list[list]:
+    """Everything an application and a network can do, mixed: received lines, buffered / unbuffered sends of every
+    command, reboot and sleeping flags, config flips, restored nodes, reconnects, version reports."""
+    gen = HistoryGen(rng, version)
+    gen.wide = rng.random() < 0.3
+    steps: list[list] = []
+    for node in (1, 2):
+        gen.known[node] = {0, 1}
+        steps.append(["restore", node, {"type": 17, "version": "2.0", "sleeping": rng.random() < 0.5,
+                                        "children": {"0": [3, "c0", {"2": "1"} if rng.random() < 0.5 else {}], "1": [3, "c1", {}]}}])
+    proto = spec.pmap(version) or "1.4"
+    for _ in range(length):
+        roll = rng.random()
+        wake = 32 if proto == "2.2" else 22
+        if roll < 0.30:
+            steps.append(["rx", gen.rx_line() + "\n"])
+        elif roll < 0.45:
+            n, c, t = rng.choice([1, 2]), rng.choice([0, 1]), rng.choice([2, 3])
+            steps.append(["rx", f"{n};{c};{rng.choice([1, 1, 2])};0;{t};{rng.choice(['0', '1', 'on'])}\n"])
+        elif roll < 0.60:
+            n, c, t = rng.choice([1, 2, 7]), rng.choice([0, 1]), rng.choice([2, 3])
+            steps.append(["tx", [n, c, 1, rng.randint(0, 1), t, rng.choice(["0", "1", "on", gen.unique()])], rng.random() < 0.85])
+        elif roll < 0.66:
+            n = rng.choice([1, 2, 7])
+            steps.append(["tx", [n, 255, 3, 0, rng.choice([13, 18, 19, 6, 1, 24]), ""], rng.random() < 0.7])
+        elif roll < 0.70:
+            steps.append(["tx", [rng.choice([1, 2]), rng.choice([0, 1]), 2, 0, 2, ""], True])
+        elif roll < 0.78:
+            steps.append(["flag", rng.choice([1, 2]), "reboot", rng.random() < 0.7])
+        elif roll < 0.86 and spec.is2x(proto):
+            steps.append(["rx", f"{rng.choice([1, 2])};255;3;0;{wake};{rng.randint(0, 9)}\n"])
+        elif roll < 0.90:
+            steps.append(["config", "metric", rng.random() < 0.5])
+        elif roll < 0.93:
+            steps.append(["rx", f"{rng.choice([1, 2, 255])};255;3;0;{rng.choice([6, 6, 1, 3])};\n"])
+        elif roll < 0.95:
+            steps.append(["reenter"])
+        elif roll < 0.97:
+            text = rng.choice(["2.0.0", "2.1.1", "2.2.0", "1.5.0"])
+            steps.append(["rx", f"0;255;3;0;2;{text}\n"])
+            proto = spec.pmap(text) or proto
+        else:
+            steps.append(["rx", f"{rng.choice([1, 2])};255;0;0;17;2.0\n"])
+    return steps
